@@ -86,8 +86,8 @@ func (eng *Engine) verifyFunc(sp *FuncSpec) (res *FuncResult) {
 		}
 		t := tm.FreshTyped("in_"+name, p.Type(), &facts)
 		e.assume(st, c.And(facts...))
-		if isRefLike(p.Type()) {
-			e.assume(st, c.Le(t, st.allocTop))
+		if hasRefs(p.Type()) {
+			e.assume(st, e.oldRefs(st, t, p.Type()))
 		}
 		args = append(args, Val{T: t})
 		e.inputs = append(e.inputs, inputVar{Name: name, Typ: p.Type(), T: t})
